@@ -14,7 +14,7 @@ GEN: programs from
     different assignments; labelled parameter lists called with the labels in every order;
   * Typing_sim - simulation: modules of three functions, budget 6 each;
   * Typing_un_<p> - a production (group) re-enabled that triggers a recorded finding (run: unmasked:<p>): lambda_annot,
-    call_gen_rec, bool_op (&& || !=), prefix_op (! -), late_use (access on the parameter of a lambda argument) by
+    call_gen_rec, late_use (access on the parameter of a lambda argument) by
     simulation; call_rec_labels (recursive calls to functions with labelled parameters) exhaustively over the labelled
     parameter lists
 are rendered with the functions in a seeded order and the prelude before or after them; hover on every binder, every
@@ -25,7 +25,6 @@ import vlib
 
 # production group -> (cfg, exhaustive?)
 UNMASK = {"lambda_annot": ("Typing_un_lambda_annot.cfg", False), "call_gen_rec": ("Typing_un_call_gen_rec.cfg", False),
-          "bool_op": ("Typing_un_bool_op.cfg", False), "prefix_op": ("Typing_un_prefix_op.cfg", False),
           "call_rec_labels": ("Typing_un_call_rec_labels.cfg", True), "late_use": ("Typing_un_late_use.cfg", False)}
 
 
